@@ -45,6 +45,8 @@ pub struct ProbabilisticStore {
     data: HashMap<String, (i64, Option<SystemTime>)>,
     operations_count: u64,
     cleanup_probability: u64,
+    #[cfg(throttlecrab_verif)]
+    verif_cleanups: u64,
 }
 
 /// Builder for configuring a ProbabilisticStore
@@ -86,6 +88,8 @@ impl ProbabilisticStore {
             data: HashMap::with_capacity((capacity as f64 * CAPACITY_OVERHEAD_FACTOR) as usize),
             operations_count: 0,
             cleanup_probability: PROBABILISTIC_CLEANUP_MODULO,
+            #[cfg(throttlecrab_verif)]
+            verif_cleanups: 0,
         }
     }
 
@@ -104,6 +108,8 @@ impl ProbabilisticStore {
             data: HashMap::with_capacity((capacity as f64 * CAPACITY_OVERHEAD_FACTOR) as usize),
             operations_count: 0,
             cleanup_probability,
+            #[cfg(throttlecrab_verif)]
+            verif_cleanups: 0,
         }
     }
 
@@ -114,6 +120,10 @@ impl ProbabilisticStore {
         // This gives uniform distribution over time while being deterministic
         let hash = self.operations_count.wrapping_mul(2654435761); // Prime multiplier
         if hash.is_multiple_of(self.cleanup_probability) {
+            #[cfg(throttlecrab_verif)]
+            {
+                self.verif_cleanups += 1;
+            }
             self.data.retain(|_, (_, expiry)| {
                 if let Some(exp) = expiry {
                     *exp > now
@@ -229,5 +239,27 @@ impl ProbabilisticStoreBuilder {
     /// Build the ProbabilisticStore with the configured settings
     pub fn build(self) -> ProbabilisticStore {
         ProbabilisticStore::with_config(self.capacity, self.cleanup_probability)
+    }
+}
+
+/// Verification hooks (compiled only with `--cfg throttlecrab_verif`)
+#[cfg(throttlecrab_verif)]
+impl ProbabilisticStore {
+    /// Number of physically stored entries
+    pub fn verif_len(&self) -> usize {
+        self.data.len()
+    }
+
+    /// Number of cleanup sweeps performed so far
+    pub fn verif_cleanups(&self) -> u64 {
+        self.verif_cleanups
+    }
+
+    /// Scheduling state: [operations_count, cleanup_probability]
+    pub fn verif_snapshot(&self) -> Vec<i128> {
+        vec![
+            self.operations_count as i128,
+            self.cleanup_probability as i128,
+        ]
     }
 }
